@@ -63,6 +63,10 @@ C07_TransferWhenRoutingCompletes(r) ==
   LET h == r.obs  T == Idx(h, LAMBDA x : IsTx(x, "Transfer")) IN
   /\ \A i \in T : Infos(h) # {} /\ h[i].t >= RoutingEnd(r) /\ h[i].t <= RoutingEnd(r) + 1
   /\ (r.result = "Ok" /\ Infos(h) # {}) => T # {}
+\* ... whole and decodable, also when the transport delivered it late (judged on runs with a stalled transport too): a connection that
+\* ended well after routing delivered its Transfer
+C07_TransferDelivered(r) ==
+  LET h == r.obs  T == Idx(h, LAMBDA x : IsTx(x, "Transfer")) IN (r.result = "Ok" /\ Infos(h) # {}) => T # {}
 \* (d) an unechoed (or wrongly echoed) Keep Alive leads to the timeout Disconnect no later than P after it; nothing follows
 C07_SilentClientTimedOut(r) ==
   LET h == r.obs IN
@@ -76,11 +80,11 @@ C07_TimeoutOnlyIfUnechoed(r) ==
   \A d \in Timeouts(h) : \E i \in KAs(h) : i < d /\ ~(\E e \in Echoes(h) : i < e /\ e < d /\ h[e].t < h[d].t /\ ~(\E j \in KAs(h) : i < j /\ j < e))
 
 C07Names == {"C07_KeepAliveEveryP", "C07_OneOutstanding", "C07_OnlyWhileWaiting", "C07_EchoingClientSurvives",
-             "C07_TransferWhenRoutingCompletes", "C07_SilentClientTimedOut", "C07_TimeoutOnlyIfUnechoed"}
+             "C07_TransferWhenRoutingCompletes", "C07_TransferDelivered", "C07_SilentClientTimedOut", "C07_TimeoutOnlyIfUnechoed"}
 C07Clause(c, r) ==
   CASE c = "C07_KeepAliveEveryP" -> C07_KeepAliveEveryP(r) [] c = "C07_OneOutstanding" -> C07_OneOutstanding(r)
     [] c = "C07_OnlyWhileWaiting" -> C07_OnlyWhileWaiting(r) [] c = "C07_EchoingClientSurvives" -> C07_EchoingClientSurvives(r)
-    [] c = "C07_TransferWhenRoutingCompletes" -> C07_TransferWhenRoutingCompletes(r)
+    [] c = "C07_TransferWhenRoutingCompletes" -> C07_TransferWhenRoutingCompletes(r) [] c = "C07_TransferDelivered" -> C07_TransferDelivered(r)
     [] c = "C07_SilentClientTimedOut" -> C07_SilentClientTimedOut(r) [] c = "C07_TimeoutOnlyIfUnechoed" -> C07_TimeoutOnlyIfUnechoed(r)
     [] OTHER -> FALSE
 =============================================================================
